@@ -163,6 +163,49 @@ fn flip(b: &[u8], bit: usize) -> Vec<u8> {
     v
 }
 
+/// commitment_with_proof (M = 0) for C = Q_2*s + T, T of order 3 outside G1, with a proof that satisfies
+/// the verification equation of core_commit_verify (challenge divisible by 3)
+pub fn ground_small_order_commitment<CS: BbsCiphersuite>(h: &mut H, sort: u8) -> Option<Vec<u8>>
+where
+    CS::Expander: for<'a> ExpandMsg<'a>,
+{
+    use bls12_381_plus::{G1Affine, G1Projective};
+    use bls12_381_plus::group::Curve;
+    use zkryptium::bbsplus::generators::Generators;
+    use zkryptium::utils::util::bbsplus_utils::{calculate_blind_challenge, ScalarExt};
+    let mut enc = [0u8; 48];
+    enc[0] = 0x80 | sort;
+    let t: G1Affine = Option::from(G1Affine::from_compressed_unchecked(&enc))?;
+    if bool::from(t.is_torsion_free()) || bool::from(t.is_identity()) {
+        return None;
+    }
+    let t = G1Projective::from(t);
+    let gens = Generators::create::<CS>(1, Some(&[b"BLIND_", CS::API_ID_BLIND].concat())).values;
+    let q2 = gens[0];
+    let mut arr = [0u8; 32];
+    arr.copy_from_slice(&rand_scalar_bytes(h));
+    let s = Scalar::from_be_bytes(&arr).unwrap();
+    let c_pt = q2 * s + t;
+    for _ in 0..200 {
+        arr.copy_from_slice(&rand_scalar_bytes(h));
+        let s_tilde = Scalar::from_be_bytes(&arr).unwrap();
+        let cbar = q2 * s_tilde;
+        let c = calculate_blind_challenge::<CS>(c_pt, cbar, &gens, Some(CS::API_ID_BLIND)).ok()?;
+        let cb = c.to_be_bytes();
+        let s_cap = s_tilde + s * c;
+        // the verifier recomputes Cbar as Q_2*s^ + C*(-c) = Cbar + T*(-c): keep the attempts where the
+        // order-3 component cancels
+        if q2 * s_cap + c_pt * (-c) != cbar {
+            continue;
+        }
+        let mut out = c_pt.to_affine().to_compressed().to_vec();
+        out.extend_from_slice(&s_cap.to_be_bytes());
+        out.extend_from_slice(&cb);
+        return Some(out);
+    }
+    None
+}
+
 pub fn c06<CS: BbsCiphersuite>(h: &mut H)
 where
     CS::Expander: for<'a> ExpandMsg<'a>,
@@ -188,6 +231,18 @@ where
             h.expect(!s.is_panic(), "C06.sign_panic", "blind_sign panicked on a bad commitment", &[id]);
             h.expect(!s.is_ok(), &format!("C06.{}", class), "signer issued a blind signature for a bad commitment", &[id]);
         };
+        // a commitment outside the prime-order subgroup whose proof of correctness is consistent:
+        // C = Q_2*s + T with T = (0, +-2) of order 3; the verification equation differs by c*T, so the
+        // prover retries s~ until (-c)*T vanishes (a third of the attempts)
+        for sort in [0u8, 0x20] {
+            if let Some(cwp) = ground_small_order_commitment::<CS>(h, sort) {
+                refuse(h, "small_order_component", &cwp);
+                let d = dec(h, "commit", &cwp);
+                h.expect(!d.is_ok(), "C06.small_order_decode", "Commitment::from_bytes decoded a commitment that is not in the prime-order group", &[h.last()]);
+                let v = devc::<CS>(h, Some(&cwp), 1);
+                h.expect(!v.is_ok(), "C06.small_order_validate", "deserialize_and_validate_commit accepted a commitment that is not in the prime-order group", &[h.last()]);
+            }
+        }
         // bit flips of the commitment-with-proof
         let nbits = run.cwp.len() * 8;
         let bits: Vec<usize> = if thorough {
